@@ -120,6 +120,7 @@ Fixpoint parse_recipe (x : sexp) {struct x} : option recipe :=
       else if opis op "newf" then do f <- pfmt a; Some (RNewf f)
       else if opis op "pkgnew" then do s <- get_atom a; Some (RPkgNew s)
       else if opis op "errno" then do z <- get_Z a; Some (RErrno z)
+      else if opis op "foreignerrno" then do z <- get_Z a; Some (RForeignErrno z)
       else if opis op "assertf" then do f <- pfmt a; Some (RAssertf f)
       else if opis op "withstack" then do r <- parse_recipe a; Some (RWithStack r)
       else if opis op "assert" then do r <- parse_recipe a; Some (RAssert r)
@@ -170,6 +171,11 @@ Fixpoint parse_recipe (x : sexp) {struct x} : option recipe :=
         do u <- parse_uwrap a; do r <- parse_recipe b; do m <- get_atom c; do xs <- get_strs d; Some (RUWrap u r m xs)
       else if opis op "linkerror" then
         do r <- parse_recipe a; do o <- get_atom b; do x1 <- get_atom c; do x2 <- get_atom d; Some (RLinkError r o x1 x2)
+      else None
+    | [a; b; c; d; e5] =>
+      if opis op "operror" then
+        do r <- parse_recipe a; do o <- get_atom b; do nt <- get_atom c; do x1 <- get_atom d; do x2 <- get_atom e5;
+        Some (ROpError r o nt x1 x2)
       else None
     | _ => None
     end
